@@ -166,6 +166,20 @@ let dp (lines : string list) =
             pr "NORM %s %d" cid (List.length hdr);
             List.iter (fun h -> pr_str (normalize_header h)) hdr; pr "\n";
             go rest3
+          | "CSVRAW" ->
+            (* CSVRAW cid normal|big <bytes of the input file> : create from the file's bytes *)
+            let cid = next c in let big = (next c = "big") in let file = next_str c in
+            (match m_create_bytes big false file, csv_read file with
+             | CreateOk s, Some (hdr :: recs) ->
+               let hdr = List.map utf8_decode hdr in
+               pr "CSV %s OK\n" cid;
+               Hashtbl.replace datasets cid (ingest hdr recs);
+               Hashtbl.replace stores (cid, WMem) (Ok s); Hashtbl.replace stores (cid, WBig) (Ok s);
+               pr "NORM %s %d" cid (List.length hdr);
+               List.iter (fun h -> pr_str (normalize_header h)) hdr; pr "\n"
+             | CreatePanic, _ -> pr "CSV %s PANIC\n" cid
+             | _, _ -> pr "CSV %s ERR\n" cid);
+            go rest
           | "LOADINDEX" -> go rest
           | "DROP" ->
             let id = next c in
@@ -371,21 +385,15 @@ let pr_rowset tag id (r : rowset outcome) =
    | Err -> pr "ERR" | Panic -> pr "PANIC" | Hang -> pr "HANG");
   pr "\n"
 
-let opts_info (opts : string) : bool * bool =
-  (* (preload, options valid) *)
-  if opts = "-" then (false, true) else begin
-    let kv = List.map (fun p -> match String.index_opt p '=' with
-      | Some i -> (String.sub p 0 i, String.sub p (i + 1) (String.length p - i - 1))
-      | None -> (p, "")) (String.split_on_char '&' opts) in
-    let get k = try Some (List.assoc k kv) with Not_found -> None in
-    let preload = (get "preload" = Some "true") in
-    let valid = (match get "lrucache" with
-      | Some "true" -> (match get "lrucachesize" with
-          | Some v -> v <> "" && String.length v <= 19 && String.for_all (fun ch -> ch >= '0' && ch <= '9') v
-          | None -> false)
-      | _ -> true) in
-    (preload, valid)
-  end
+(* The data source name the harness builds for (dataset, option string), parsed by the MODEL
+   (Dsn.parse_dsn): (preload, the open succeeds as far as the options go, option part of the
+   connection-cache key). *)
+let opts_info3 (opts : string) : bool * bool * string =
+  let name = "file:/F/x" ^ (if opts = "-" then "" else "?" ^ opts) in
+  match parse_dsn (bytes_of_string name) with
+  | DsnFile (_, cfg, key) -> (cfg.fc_preload, true, String.concat "" (List.map (fun b -> String.make 1 (Char.chr (int_of_n b))) key))
+  | _ -> (false, false, "")
+let opts_info (opts : string) : bool * bool = let (p, v, _) = opts_info3 opts in (p, v)
 
 let sql (lines : string list) =
   let datasets : (string, (n list * n list) list list) Hashtbl.t = Hashtbl.create 16 in
@@ -473,12 +481,7 @@ let drv (lines : string list) =
        | "DOPEN" ->
          let h = next c in let f = next c in let o = next c in
          (* the driver's key: canonical option string; an invalid cache size is an open error *)
-         let (pre, valid) = opts_info o in
-         let contains (hay : string) (needle : string) =
-           let n = String.length needle and m = String.length hay in
-           let rec at i = i + n <= m && (String.sub hay i n = needle || at (i + 1)) in at 0 in
-         let lru = contains o "lrucache=true" in
-         let canon = (if pre then "p" else "") ^ (if lru then "l" ^ o else "") in
+         let (pre, valid, canon) = opts_info3 o in
          let fi = num files f in
          let fi' = if valid then fi else (let bad = 1000 + fi in Hashtbl.replace invalid bad (); bad) in
          ops := DOpen (n_of_int (num handles h), { k_file = n_of_int fi'; k_opts = n_of_int (num optsn canon) }) :: !ops;
@@ -575,6 +578,29 @@ let wire (lines : string list) =
           | t -> failwith ("wire: bad line: " ^ l))) in
   go lines
 
+(* ---------------------------------------------------------------- CSV reader / UTF-8 decoding (C19) *)
+let csvbytes (lines : string list) =
+  List.iter (fun l ->
+    let c = { toks = tokens l } in
+    match c.toks with
+    | [] -> ()
+    | _ ->
+      (match next c with
+       | "CSVTEXT" ->
+         let id = next c in let file = next_str c in
+         (match csv_read file with
+          | None -> pr "CSVREAD %s ERR\n" id
+          | Some recs ->
+            pr "CSVREAD %s OK %d" id (List.length recs);
+            List.iter (fun r -> pr " R %d" (List.length r); List.iter pr_str r) recs;
+            pr "\n")
+       | "RUNES" ->
+         let id = next c in let s = next_str c in
+         let rs = utf8_decode s in
+         pr "RUNES %s %d" id (List.length rs);
+         List.iter (fun r -> pr " %d" (int_of_n r)) rs; pr "\n"
+       | t -> failwith ("csvbytes: bad line: " ^ l))) lines
+
 let () =
   let prop = Sys.argv.(1) and path = Sys.argv.(2) in
   let lines = read_lines path in
@@ -585,5 +611,6 @@ let () =
    | "sql" -> sql lines
    | "drv" -> drv lines
    | "wire" -> wire lines
+   | "csvbytes" -> csvbytes lines
    | _ -> failwith ("unknown property " ^ prop));
   print_string (Buffer.contents out)
